@@ -321,6 +321,41 @@ def run_property(ctx, prop, replay=None):
         ctx.coverage["graphs_outside_the_theorem_scope_disagreement"] = len(outside)
     seen = set()
     hits = 0
+    if bad and not fixed:
+        # the correspondence broke: search for a concrete failing input on the graphs where it did - the implementation alone under
+        # fresh schedules and outcome assignments, judged by the property monitors
+        tried = 0
+        for c0 in bad[:3]:
+            for c in travgen.search_around(rng, c0, 180 if ctx.thorough else 60):
+                tried += 1
+                for sig, text in monitors(prop, c):
+                    if sig in seen:
+                        continue
+                    seen.add(sig)
+                    d = travgen.replay_data(c)
+                    d["violation"] = text
+                    d["found_by"] = "search around a graph on which the correspondence broke"
+                    ctx.fail(sig, f"{prop}: {text}", d, True)
+        from harness.common import load_findings
+        known = {k["signature"] for k in load_findings() if k.get("property") == prop and k.get("kind") == "known"}
+        if not (seen - known):
+            # nothing (beyond the known findings) on those graphs: freshly generated graphs of the property's flavours, each under
+            # the same variations of workers, schedules and outcomes, implementation only
+            for t in range(15 if ctx.thorough else 6):
+                spec = travgen.gen_spec(rng, [f for f in FLAVOURS[prop] if f != "directed"][t % len([f for f in FLAVOURS[prop] if f != "directed"])])
+                for c in travgen.search_around(rng, {"spec": spec, "store": {}}, 60):
+                    tried += 1
+                    for sig, text in monitors(prop, c):
+                        if sig in seen:
+                            continue
+                        seen.add(sig)
+                        d = travgen.replay_data(c)
+                        d["violation"] = text
+                        d["found_by"] = "search on fresh graphs after the correspondence broke"
+                        ctx.fail(sig, f"{prop}: {text}", d, True)
+                if seen - known:
+                    break
+        ctx.coverage["search_after_broken_correspondence"] = {"graphs": len(bad[:3]), "runs": tried, "signatures": sorted(seen)}
     for c in cases:
         for sig, text in monitors(prop, c):
             hits += 1
